@@ -1,5 +1,6 @@
 import CgreenModel.Model.PerTest
 import CgreenModel.Props.C02
+import CgreenModel.Model.Signals
 /-!
 # C04 — a test's results do not depend on which other tests ran before it (forking mode)
 Two parts. (1) Framework and program state: in forking mode a test runs in a copy of the parent's
@@ -52,5 +53,42 @@ theorem C04_totals (cap : Nat) (su td : Bool) (ts ts' : List Test) (h : ts.Perm 
 
 example : runFork resetPerTest {} [[.setMode .loose, .leave, .setFigs 2, .writeGlobal], [.callUnexpected, .dblCheck, .readGlobal]]
     = [[.fail], [.fail, .fail, .pass]] := by decide
+
+end Cgreen
+
+/-! ### What a test inherits from the runner: the disposition of SIGINT (finding F47) -/
+namespace Cgreen
+open Sig (Disp allowCtrlC allowCtrlCOld ignoreCtrlC forkTest)
+
+theorem forkTest_cur (r : Sig.Runner) (s : Bool) : (forkTest allowCtrlC r s).2.cur = r.cur := by
+  unfold forkTest; split <;> simp [allowCtrlC, ignoreCtrlC]
+
+/-- Every test process of a run starts with the disposition of SIGINT the test program itself was started with (default,
+ignored as under `nohup`, or a handler of the program's own) - for every number of tests before it, switched off or not -
+and the runner has that disposition again when the run is over. -/
+theorem C04_sigint_inherited (r : Sig.Runner) (tests : List Bool) :
+    (∀ d ∈ (Sig.runTests allowCtrlC r tests).1, d = none ∨ d = some r.cur) ∧ (Sig.runTests allowCtrlC r tests).2.cur = r.cur := by
+  induction tests generalizing r with
+  | nil => simp [Sig.runTests]
+  | cons s rest ih =>
+    have h := ih (forkTest allowCtrlC r s).2
+    rw [forkTest_cur] at h
+    simp only [Sig.runTests, List.mem_cons, forall_eq_or_imp]
+    refine ⟨⟨?_, h.1⟩, h.2⟩
+    unfold forkTest; split <;> simp
+
+/-- Two tests of the same run therefore start alike, wherever they stand. -/
+theorem C04_sigint_same (r : Sig.Runner) (tests : List Bool) (i j : Nat) (a b : Disp)
+    (hi : (Sig.runTests allowCtrlC r tests).1[i]? = some (some a)) (hj : (Sig.runTests allowCtrlC r tests).1[j]? = some (some b)) : a = b := by
+  have h := (C04_sigint_inherited r tests).1
+  have ha := h _ (List.mem_of_getElem? hi)
+  have hb := h _ (List.mem_of_getElem? hj)
+  simp at ha hb; rw [ha, hb]
+
+/-- Witness for F47: with the `allow_ctrl_c()` of the pinned commit a program started with SIGINT ignored hands that to its
+first test only. -/
+theorem C04_F47_witness : (Sig.runTests allowCtrlCOld { cur := .ign } [false, false]).1 = [some .ign, some .dfl] := by decide
+
+example : (Sig.runTests allowCtrlC { cur := .ign } [false, true, false]).1 = [some .ign, none, some .ign] := by decide
 
 end Cgreen
